@@ -88,7 +88,7 @@ def start_partition(cfg):
 
 def make_call(cfg):
     f = getattr(bct, cfg['fn'])
-    W = np.array(cfg['W'], dtype=float)
+    W = np.array(cfg['W'], dtype=cfg.get('W_dtype') or float)       # W_dtype: the element type the routine is given
     kw = dict(cfg['kw'])
     for k in ('ci', 'kci'):
         if kw.get(k) is not None:
